@@ -1,11 +1,14 @@
 //! C18 — tenant quotas hold under every interleaving of writers.
 //!
 //! Sim: 2–3 REAL OS threads each call `persist_create_node` / `persist_create_edge` for
-//! distinct ids against a quota of 1–2.  Every thread parks at a synthetic `start` point
-//! and at every H4 point inside `persist_create_*`; the controller (`kit::threads`)
+//! distinct ids against a quota of 1–2.  Every thread parks at a synthetic `start` point,
+//! at every H4 point inside `persist_create_*` and (hook H7) BEFORE every acquisition of a
+//! `TenantManager` lock (`lock.read` / `lock.write`); the controller (`kit::threads`)
 //! releases exactly one parked thread at a time, chosen by the pre-drawn scheduler picks
 //! of the case — the interleaving is the simulator's decision and replays exactly.
-//! Afterwards `recover` is called 1–2 times (optionally after a restart) and a further
+//! Afterwards `recover` is called 1–2 times — on the same manager, or after a restart, or
+//! after a restart that first accepts further creations (the manager of a restarted
+//! process knows nothing of what is stored until `recover` tells it) — and a further
 //! sequential creation is attempted.
 
 use crate::kit::core::*;
@@ -15,6 +18,7 @@ use crate::kit::rng::Streams;
 use crate::kit::threads::{interleavings, ThreadCtl};
 use samyama::graph::PropertyMap;
 use samyama::persistence::{PersistenceError, PersistenceManager, ResourceQuotas, TenantError};
+use samyama::verif::PointHandler;
 use serde_json::{json, Map, Value};
 use std::collections::{BTreeMap, BTreeSet};
 use std::path::Path;
@@ -157,7 +161,7 @@ impl Scenario for C18 {
         }
     }
     fn rule(&self) -> &'static str {
-        "case = quota (1..2 nodes, 1..2 edges), 0..1 sequential creations before, 2..3 writer threads each performing 1..2 persist_create_node/edge calls for distinct ids, a pre-drawn list of scheduler picks (one per decision, taken modulo the parked threads), then 1..2 recover calls on the same manager (1 run in 3 after a restart) and a final sequential creation per kind. Threads are real; they park at 'start' and at every H4 point; exactly one runs at a time. Non-trivial = at least two writers of the same kind were simultaneously between their quota check and their usage update. Distinct = hash of (quotas, writer programs, executed schedule with threads renamed by first appearance, recover plan)."
+        "case = quota (1..2 nodes, 1..2 edges), 0..1 sequential creations before, 2..3 writer threads each performing 1..2 persist_create_node/edge calls for distinct ids, a pre-drawn list of scheduler picks (one per decision, taken modulo the parked threads), then 1..2 recover calls on the same manager (1 run in 3 after a restart; 1 run in 3 after a restart on the same directory that first accepts 1..2 further creations, i.e. recover runs on a manager whose counters are already running) and a final sequential creation per kind. Threads are real; they park at 'start', at every H4 point and before every TenantManager lock acquisition (hook H7: lock.read / lock.write); exactly one runs at a time. Non-trivial = at least two writers were simultaneously inside the admission window (between entering the quota reservation and their usage update), or simultaneously parked before a TenantManager lock acquisition. Distinct = hash of (quotas, writer programs, executed schedule with threads renamed by first appearance, recover plan)."
     }
     fn real_components(&self) -> Vec<&'static str> {
         vec![
@@ -167,30 +171,43 @@ impl Scenario for C18 {
         ]
     }
     fn stub_components(&self) -> Vec<&'static str> {
-        vec!["the OS scheduler is replaced by kit::threads::ThreadCtl: threads only switch at the H4 points and at 'start'"]
+        vec!["the OS scheduler is replaced by kit::threads::ThreadCtl: threads only switch at 'start', at the H4 points and before each TenantManager lock acquisition (H7)"]
     }
     fn assumptions(&self) -> Vec<&'static str> {
         vec![
-            "the H4 points sit outside every lock scope (verified by reading persist_create_*: the TenantManager guards live inside check_quota/increment_usage, the WAL MutexGuard is a temporary of one statement), so a released thread never blocks on a parked one; a 30 s watchdog turns a violation of this into a reported panic instead of a hang",
-            "interleavings finer than the H4 points (inside check_quota, inside put_node) are not explored: each of those sections takes its locks and releases them before returning, so they are atomic with respect to each other",
+            "the H4 points sit outside every lock scope (verified by reading persist_create_*: the TenantManager guards live inside reserve_quota/decrement_usage, the WAL MutexGuard is a temporary of one statement), so a released thread never blocks on a thread parked there; a 30 s watchdog turns a violation of this into a reported panic instead of a hang",
+            "H7 lock points are reported BEFORE the acquisition, never while holding the lock being acquired, so a thread parked there holds at most the locks of enclosing scopes: in TenantManager that is the `tenants` READ guard (reserve_quota / check_quota take tenants.read(), then usage.write()/read()). The writers of this scenario only ever take tenants.read(), which a parked reader does not block (no thread requests tenants.write() while writers run: create_tenant / delete_tenant / update_* are only called by the controller thread between phases). A future TenantManager method that parks holding a WRITE guard, or a writer program that calls a tenants.write() method, would block the others: the watchdog reports that as a panic, it does not hang",
+            "every critical section of TenantManager is one lock acquisition (or a nested pair) and is atomic between two H7 points; check-then-act split over two acquisitions — in any shape — therefore has a schedule point in the gap. Interleavings inside RocksDB / the WAL Mutex (inside put_node, inside append) are not explored: each is one call that takes and releases its own lock",
+            "a restarted manager that accepts creations before recover(tenant) ran may legitimately exceed the quota (it cannot know what is stored); the oracle demands only what the statement says: after recover the counters equal what is stored, and from then on nothing is accepted at or above the quota",
             "'accepted' = the call returned Ok; 'refused' = it returned an error; the statement does not require that a creation is accepted while room remains, so under-admission is a probe, not a violation",
             "only the tenant under test holds data, so scan_nodes/scan_edges (whose prefix scan is C17's subject) return exactly its keys",
         ]
     }
     fn required_probes(&self, _tier: Tier) -> Vec<&'static str> {
-        vec!["both_passed_quota_check", "writer_refused", "three_writers", "recover_twice", "restart_before_recover", "post_recover_creation_refused"]
+        vec![
+            "both_passed_quota_check",
+            "writer_refused",
+            "three_writers",
+            "recover_twice",
+            "restart_before_recover",
+            "post_recover_creation_refused",
+            "two_writers_parked_before_lock_acquisition",
+            "writer_parked_between_two_lock_acquisitions_of_one_call",
+            "creation_on_restarted_manager_before_recover",
+            "recover_on_manager_with_running_counters_and_stored_data",
+        ]
     }
     fn extra_evidence(&self, _tier: Tier) -> Map<String, Value> {
         let mut m = Map::new();
-        // every persist_create_* call = 5 scheduler releases when accepted (start|previous point,
-        // after_quota, after_wal, after_put, after_usage); the first call of a thread has one more (start)
+        // every persist_create_* call = 7 scheduler releases when accepted (start|previous point,
+        // lock.read [tenants], lock.write [usage], after_quota, after_wal, after_put, after_usage)
         m.insert(
             "schedule_space".into(),
             json!({
-                "2_writers_x_1_create": interleavings(&[5, 5]).to_string(),
-                "3_writers_x_1_create": interleavings(&[5, 5, 5]).to_string(),
-                "2_writers_x_2_creates": interleavings(&[9, 9]).to_string(),
-                "3_writers_x_2_creates": interleavings(&[9, 9, 9]).to_string(),
+                "2_writers_x_1_create": interleavings(&[7, 7]).to_string(),
+                "3_writers_x_1_create": interleavings(&[7, 7, 7]).to_string(),
+                "2_writers_x_2_creates": interleavings(&[13, 13]).to_string(),
+                "3_writers_x_2_creates": interleavings(&[13, 13, 13]).to_string(),
                 "note": "multinomial count of release orders when every call is accepted; refused calls have fewer points, so the real space is smaller. 'distinct_nontrivial' in coverage is the number of distinct (program, executed schedule) classes reached."
             }),
         );
@@ -203,6 +220,7 @@ impl Scenario for C18 {
         case.knobs.insert("restart_before_recover".into(), json!(s.knobs.chance(1, 3)));
         let writers = if s.knobs.chance(1, 3) { 3 } else { 2 };
         let edge_bias = s.knobs.below(4); // 0: nodes only (the property's own quantifier), else mixed
+        let write_before_recover = s.knobs.chance(1, 3);
         let r = &mut s.workload;
         if r.chance(1, 4) {
             case.events.push(json!({"op":"pre","kind": if edge_bias == 0 { 0 } else { r.below(2) }}));
@@ -214,11 +232,19 @@ impl Scenario for C18 {
             case.events.push(json!({"op":"writer","kinds":kinds}));
         }
         let sr = &mut s.sched;
-        for _ in 0..32 {
+        for _ in 0..48 {
             case.events.push(json!({"op":"sched","pick":sr.below(6)}));
         }
         let r = &mut s.workload;
         let recs = 1 + r.below(2);
+        if write_before_recover {
+            // a restarted process that accepts creations before it recovers the tenant
+            let n = 1 + s.knobs.below(2);
+            for _ in 0..n {
+                let kind = if edge_bias == 0 { 0 } else { s.knobs.below(2) };
+                case.events.push(json!({"op":"rwrite","kind":kind}));
+            }
+        }
         for _ in 0..recs {
             case.events.push(json!({"op":"recover"}));
         }
@@ -284,12 +310,16 @@ impl Scenario for C18 {
         let picks: Vec<u64> = case.events.iter().filter(|e| op(e) == "sched").map(|e| u(e, "pick")).collect();
         let mut sched_desc = String::from("(no writers)");
         let mut overlap = false;
+        let mut lock_overlap = false;
+        let mut split_call = false;
         if !programs.is_empty() {
             if programs.len() >= 3 {
                 o.probe("three_writers");
             }
             let ctl = ThreadCtl::new(programs.len());
             ctl.install();
+            // H7: the same controller also receives the lock-acquisition points
+            samyama::verif::sync::set_lock_handler(Some(ctl.clone() as Arc<dyn PointHandler>));
             let results: Arc<Mutex<Vec<Attempt>>> = Arc::new(Mutex::new(Vec::new()));
             let mut handles = Vec::new();
             for (ix, prog) in programs.iter().enumerate() {
@@ -315,6 +345,10 @@ impl Scenario for C18 {
                         overlap = true;
                     }
                 }
+                // probe: two writers both about to acquire a TenantManager lock
+                if parked.iter().filter(|(_, p)| p.starts_with("lock.")).count() >= 2 {
+                    lock_overlap = true;
+                }
                 let p = picks.get(di).cloned().unwrap_or(0) as usize;
                 di += 1;
                 p
@@ -324,6 +358,7 @@ impl Scenario for C18 {
                 Err(e) => {
                     // never hang: let everything run to its end, then report
                     ThreadCtl::uninstall();
+                    samyama::verif::sync::set_lock_handler(None);
                     ctl.drain();
                     for h in handles {
                         let _ = h.join();
@@ -335,7 +370,22 @@ impl Scenario for C18 {
                 let _ = h.join();
             }
             ThreadCtl::uninstall();
+            samyama::verif::sync::set_lock_handler(None);
             o.steps += trace.len() as u64;
+            // probe: some writer was released from one lock point and parked at the next
+            // while another writer ran in between — i.e. the scheduler used the gap between
+            // two lock acquisitions of one TenantManager call
+            for (i, (ix, p)) in trace.iter().enumerate() {
+                if !p.starts_with("lock.") {
+                    continue;
+                }
+                // next release of the same thread
+                if let Some(j) = trace.iter().enumerate().skip(i + 1).find(|(_, (jx, _))| jx == ix).map(|(j, _)| j) {
+                    if trace[j].1.starts_with("lock.") && j > i + 1 {
+                        split_call = true;
+                    }
+                }
+            }
             for ix in 0..programs.len() {
                 if let Some(msg) = ctl.panic_of(ix) {
                     o.violate(Violation::new("C18/panic_in_writer", format!("writer {ix} panicked: {msg}"), 0));
@@ -347,20 +397,26 @@ impl Scenario for C18 {
             for (ix, p) in &trace {
                 let n = rename.len();
                 let r = *rename.entry(*ix).or_insert(n);
-                let short = p.rsplit('.').next().unwrap_or(p);
+                let short = if p.starts_with("lock.") { p.as_str() } else { p.rsplit('.').next().unwrap_or(p) };
                 canon.push(format!("{r}{short}"));
             }
             let mut progs: Vec<(usize, String)> = programs.iter().enumerate().map(|(ix, p)| (*rename.get(&ix).unwrap_or(&99), p.iter().map(|(k, _)| k.to_string()).collect::<String>())).collect();
             progs.sort();
             class_parts.push(format!("{:?}", progs));
             class_parts.push(canon.join(","));
-            sched_desc = trace.iter().map(|(ix, p)| format!("w{ix}<-{}", p.rsplit('.').next().unwrap_or(p))).collect::<Vec<_>>().join(" ");
+            sched_desc = trace.iter().map(|(ix, p)| format!("w{ix}<-{}", if p.starts_with("lock.") { p.as_str() } else { p.rsplit('.').next().unwrap_or(p) })).collect::<Vec<_>>().join(" ");
             let mut rs = results.lock().unwrap_or_else(|e| e.into_inner()).clone();
             rs.sort_by(|a, b| (a.who.clone(), a.id).cmp(&(b.who.clone(), b.id)));
             attempts.extend(rs);
         }
         if overlap {
             o.probe("both_passed_quota_check");
+        }
+        if lock_overlap {
+            o.probe("two_writers_parked_before_lock_acquisition");
+        }
+        if split_call {
+            o.probe("writer_parked_between_two_lock_acquisitions_of_one_call");
         }
         if attempts.iter().any(|a| !a.ok && a.who.starts_with('w')) {
             o.probe("writer_refused");
@@ -385,7 +441,10 @@ impl Scenario for C18 {
         // ---- recovery (optionally in a restarted process), repeated on the same manager
         let n_rec = case.events.iter().filter(|e| op(e) == "recover").count().min(3);
         let mut stop = !o.violations.is_empty() && o.violations.iter().any(|v| v.signature.starts_with("C18/panic") || v.signature.starts_with("C18/scan_error"));
-        if n_rec > 0 && restart && !stop {
+        // state class of the after-recovery signatures: what the recovering manager had seen
+        let mut rec_phase = "after_recover";
+        let rwrites: Vec<usize> = case.events.iter().filter(|e| op(e) == "rwrite").take(3).map(|e| (u(e, "kind") % 2) as usize).collect();
+        if n_rec > 0 && (restart || !rwrites.is_empty()) && !stop {
             o.probe("restart_before_recover");
             pm_opt = None; // drop: releases RocksDB's LOCK
             match open(&dir, qn, qe) {
@@ -396,6 +455,31 @@ impl Scenario for C18 {
                 }
             }
             class_parts.push("restart".into());
+            // ---- the restarted process accepts creations BEFORE it recovers the tenant:
+            // its counters start at 0 and know nothing of what is stored, so whether these
+            // are accepted is not judged (see assumptions); what recover makes of counters
+            // that are already running is judged by the checks after each recover below
+            if !stop {
+                let pmr = pm_opt.as_ref().unwrap();
+                for kind in &rwrites {
+                    let kind = *kind;
+                    let held_before: usize = {
+                        let mut c = Check { pm: pmr, quota: [qn, qe], out: Vec::new(), sched: sched_desc.clone() };
+                        c.stored(kind, 0).map(|m| m.values().sum()).unwrap_or(0)
+                    };
+                    let id = next_id[kind];
+                    next_id[kind] += 1;
+                    let a = create(pmr, "rw", kind, id);
+                    o.probe("creation_on_restarted_manager_before_recover");
+                    if a.ok && held_before > 0 {
+                        o.probe("recover_on_manager_with_running_counters_and_stored_data");
+                    }
+                    rec_phase = "after_recover_on_restarted_manager_with_earlier_creations";
+                    attempts.push(a);
+                    class_parts.push(format!("rw{kind}"));
+                    o.steps += 1;
+                }
+            }
         }
         if !stop {
             for i in 0..n_rec {
@@ -415,7 +499,7 @@ impl Scenario for C18 {
                                 }
                             }
                         }
-                        c.all(&attempts, "after_recover", i + 1);
+                        c.all(&attempts, rec_phase, i + 1);
                         for v in c.out {
                             o.violate(v);
                         }
@@ -438,7 +522,7 @@ impl Scenario for C18 {
                         o.probe("post_recover_creation_refused");
                     } else if held >= [qn, qe][kind] {
                         c.fail(
-                            format!("C18/quota_exceeded/{}/after_recover", KINDS[kind]),
+                            format!("C18/quota_exceeded/{}/{rec_phase}", KINDS[kind]),
                             format!("after recovery storage held {held} {} (quota {}), yet a further creation (id {id}) was accepted", KINDS[kind], [qn, qe][kind]),
                             n_rec + 1,
                         );
@@ -451,7 +535,7 @@ impl Scenario for C18 {
                     o.steps += 1;
                 }
                 let mut c = Check { pm: pmr, quota: [qn, qe], out: Vec::new(), sched: sched_desc.clone() };
-                c.all(&attempts, if n_rec > 0 { "after_recover" } else { "after_writers" }, n_rec + 1);
+                c.all(&attempts, if n_rec > 0 { rec_phase } else { "after_writers" }, n_rec + 1);
                 for v in c.out {
                     o.violate(v);
                 }
@@ -460,7 +544,7 @@ impl Scenario for C18 {
         // de-duplicate signatures (the same clause can fire in several phases)
         let mut seen = BTreeSet::new();
         o.violations.retain(|v| seen.insert(v.signature.clone()));
-        o.nontrivial = overlap;
+        o.nontrivial = overlap || lock_overlap;
         o.class_key = hash_str(&class_parts.join("|"));
         let final_usage = pm_opt.as_ref().and_then(|p| p.tenants().get_usage(TENANT).ok()).map(|u| (u.node_count, u.edge_count));
         o.state_hash = hash_str(&format!("{:?}|{:?}|{}", attempts.iter().map(|a| (a.who.clone(), a.kind, a.id, a.ok)).collect::<Vec<_>>(), final_usage, sched_desc));
